@@ -402,7 +402,7 @@ func c16RandPatterns(r *rand.Rand, tree []c16Entry, n int) []string {
 			paths = append(paths, e.Path+"/inner")
 		}
 	}
-	fixed := []string{"*", ".*", "*/", "*/*", "*/.*", ".*/", "./*", "*//", "*//*", "?", "??*", "[a-b]*", "*.go", "<ROOT>/*", "<ROOT>/*/", "<ROOT>/.*", "<ROOT>//*", "a", "a/", "nope", "nope/*", "*/nope", ".", "..", "../*", "./", "*/../*", `\*`, `*\/`, `*\/*`, "[!.]*", `\.*`, "*/*/", "*/*/*", "a//", "nope//", "*/a//", "<ROOT>/nope///", "a.go//", "*/a.go//", `*\`, `a\`, `a/\`, `\`, `?\`, `*/\`}
+	fixed := []string{"*", ".*", "*/", "*/*", "*/.*", ".*/", "./*", "*//", "*//*", "?", "??*", "[a-b]*", "*.go", "<ROOT>/*", "<ROOT>/*/", "<ROOT>/.*", "<ROOT>//*", "a", "a/", "nope", "nope/*", "*/nope", ".", "..", "../*", "./", "*/../*", `\*`, `*\/`, `*\/*`, "[!.]*", `\.*`, "*/*/", "*/*/*", "a//", "nope//", "*/a//", "<ROOT>/nope///", "a.go//", "*/a.go//", `*\`, `a\`, `a/\`, `\`, `?\`, `*/\`, `\<ROOT>/*`, `\<ROOT>\/*`, `\<ROOT>/a`, `\<ROOT>//.*`}
 	out := append([]string(nil), fixed...)
 	for len(out) < n {
 		p := pick(r, paths)
